@@ -125,8 +125,13 @@ def oracle(rep, case, out):
             if r.get('err') != 'SynphotError':
                 rep.oracle_fail(sig + ':no_area:%s' % r.get('err', 'returned'), 'count rate without an area', case, r)
             continue
+        if qu.get('_rev_of') is not None:
+            r0 = o['queries'][qu['_rev_of']]
+            if ('err' in r) != ('err' in r0) or r.get('err') != r0.get('err') or \
+                    ('ok' in r and abs(r['ok'] - r0['ok']) > 1e-12 * abs(r0['ok'])):
+                rep.oracle_fail(sig + ':order_of_sampling_wavelengths', 'descending wavelengths give %s, ascending %s' % (r, r0), case, r)
         if qu.get('wl') is not None:
-            continue        # explicit sampling wavelengths: model comparison only
+            continue        # explicit sampling wavelengths: model comparison (and the order oracle above)
         total_ref = area * (x['binned_sum'] if qu['binned'] else x.get('unbinned_sum'))
         if total_ref is None:
             continue
@@ -253,6 +258,16 @@ def add_ranges(c, rng):
         if rng.random() < 0.15:
             qu['binned'] = False
         c['queries'].append(qu)
+        if qu['binned'] and len(cen) >= 3 and rng.random() < 0.35:
+            # the same range on explicit sampling wavelengths (a run of bin centres), in ascending and in descending order
+            i0 = rng.randrange(len(cen) - 2)
+            i1 = rng.randrange(i0 + 2, len(cen))
+            run_ = cen[i0:i1 + 1]
+            lo, hi = sorted(rng.sample(run_, 2))
+            wr2 = [lo, hi] if rng.random() < 0.7 else [hi, lo]
+            qa = dict(base, waverange=qs(wr2), force=rng.random() < 0.5, wl=qs(run_))
+            c['queries'].append(qa)
+            c['queries'].append(dict(qa, wl=qs(run_[::-1]), _rev_of=len(c['queries']) - 1))
     return c
 
 
@@ -268,7 +283,7 @@ def run(rep):
     cases += fresh
     rep.rule = ('observations (C07 generator: table / constant / box / trapezoid sources x table / box bandpasses, default / uniform / '
                 'random / fine / coarse / partly-outside / descending binsets) x areas over 6 decades (numbers in cm^2, Quantities in m^2) x '
-                'binned and unbinned x sub-ranges placed on bin centres, bin edges, between them, reversed, partly and wholly outside x '
+                'binned and unbinned x explicit sampling wavelengths (runs of bin centres, both orders) x sub-ranges placed on bin centres, bin edges, between them, reversed, partly and wholly outside x '
                 'force; scalar multiples of the source (2^-10 .. 2^12). Non-trivial: an observation was constructed and at least one count rate returned.')
 
     def tags(c, o):
